@@ -62,11 +62,18 @@ func runC07(env *Env, rc *RunCtx) {
 	}
 	n := sizes[t.Choose(len(sizes))]
 	bigRun := t.Bool(1, 12)
+	hugeRun := false
 	if bigRun {
 		// thousands of rows and page sizes in the thousands: boundaries an
 		// implementation might clamp or batch at (none copied from the code)
 		n = []int{999, 1000, 1001, 2001, 5003}[t.Choose(5)]
 		rc.Count("probe_thousands_of_rows", 1)
+		// now and then tens of thousands, with page sizes around the next round numbers
+		if t.Bool(1, 6) {
+			hugeRun = true
+			n = []int{10001, 10500, 16500, 20003}[t.Choose(4)]
+			rc.Count("probe_tens_of_thousands_of_rows", 1)
+		}
 	}
 	mkMatching := func(i int) Tuple {
 		x := Tuple{NS: ns, Obj: fmt.Sprintf("m%d", i), Rel: pick(t, dom.Rels), Sub: Subject{ID: pick(t, dom.Users)}}
@@ -125,6 +132,9 @@ func runC07(env *Env, rc *RunCtx) {
 	cands := []int{0, 1, 2, n - 1, n, n + 1, 100, 101}
 	if bigRun {
 		cands = []int{0, 500, 1000, 1001, 5000, 5001, 7000, n - 1, n, n + 1}
+	}
+	if hugeRun {
+		cands = []int{5000, 9999, 10000, 10001, 16384, 20000, 32768, 65536, 100000, n - 1, n, n + 1}
 	}
 	size := cands[t.Choose(len(cands))]
 	if size < 0 {
